@@ -610,3 +610,77 @@ def frag_content_part(ctx):
         bounds='MTU 68..=1500 (thorough ..=65535) symbolic, total length symbolic with payload <= K * 8*floor((MTU-20)/8), K = 3 (thorough 5), incoming offset 0..=4000 symbolic, incoming MF set and clear',
         outside='more pieces than K; DF set (decided by the Kani part); payload bytes themselves (a provenance extent stands for arbitrary bytes)',
         assumptions=['Message modelled as provenance extents (cut/slice/concatenate split and join extents; faithfulness of the real Message is C07)'])
+
+
+UDP_REPLAY = r'''
+use super::*;
+use crate::{protocol::{DemuxError, StartError}, session::SendError, Control, Machine, Message, Session, Shutdown};
+use crate::protocols::ipv4::{ipv4_parsing::{ControlFlags, Ipv4Header, TypeOfService}, Ipv4, Ipv4Address};
+use crate::protocols::utility::Endpoint;
+use std::{any::TypeId, sync::{Arc, Mutex}};
+use tokio::sync::Barrier;
+type Got = (usize, Vec<u8>);
+static GOT: Mutex<Vec<Got>> = Mutex::new(Vec::new());
+struct Rec<const N: usize>;
+#[async_trait::async_trait]
+impl<const N: usize> crate::Protocol for Rec<N> {
+    async fn start(&self, _s: Shutdown, _i: Arc<Barrier>, _m: Arc<Machine>) -> Result<(), StartError> { Ok(()) }
+    fn demux(&self, message: Message, _caller: Arc<dyn Session>, _control: Control, _machine: Arc<Machine>) -> Result<(), DemuxError> {
+        GOT.lock().unwrap().push((N, message.to_vec())); Ok(())
+    }
+}
+struct Dummy;
+impl Session for Dummy { fn send(&self, _m: Message, _ma: Arc<Machine>) -> Result<(), SendError> { Ok(()) } }
+'''
+
+
+def udp_native_replay(v):
+    from mirx import native
+    u = v['unit']
+    vals = v.get('values', {})
+    g = lambda k, d=0: int(vals.get(k, d))
+    nb, npay = u['bindings'], u['payload']
+    L = ['#[test]\nfn mirx_replay_0() {', '    println!("\\nREPLAY-BEGIN mirx_replay_0");',
+         '    let machine = Arc::new(Machine::new().with(Udp::new()).with(Ipv4::new(Default::default())).with(Rec::<0>).with(Rec::<1>).with(Rec::<2>));',
+         '    let udp = machine.protocol::<Udp>().unwrap(); let mut bad: Vec<String> = Vec::new();',
+         '    let ids = [TypeId::of::<Rec<0>>(), TypeId::of::<Rec<1>>(), TypeId::of::<Rec<2>>()];',
+         '    let mut bound: Vec<(u32, u16, usize)> = Vec::new();']
+    for i in range(nb):
+        a, p = g(f'baddr{i}') & 0xffffffff, g(f'bport{i}') & 0xffff
+        L.append(f'    {{ let dup = bound.iter().any(|b| b.0 == {a}u32 && b.1 == {p}u16); let r = udp.listen(ids[{i}], Endpoint::new(Ipv4Address::from({a}u32), {p}), machine.clone());')
+        L.append(f'      if r.is_ok() == dup {{ bad.push(format!("listen #{i}: ok={{}} although duplicate={{}}", r.is_ok(), dup)); }} if r.is_ok() {{ bound.push(({a}u32, {p}u16, {i})); }} }}')
+    src, dst, sport, dport = g('src') & 0xffffffff, g('dst') & 0xffffffff, g('sport') & 0xffff, g('dport') & 0xffff
+    payload = [g(f'pl{i}', 65 + i) & 0xff for i in range(npay)]
+    L.append(f'    let payload: Vec<u8> = vec!{payload};')
+    L.append(f'    let mut bytes: Vec<u8> = vec![{sport >> 8}, {sport & 255}, {dport >> 8}, {dport & 255}, {(8 + npay) >> 8}, {(8 + npay) & 255}, 0, 0]; bytes.extend_from_slice(&payload);')
+    L.append(f'    let iph = Ipv4Header {{ ihl: 5, type_of_service: TypeOfService::from(0u8), total_length: {28 + npay}, identification: 1, fragment_offset: 0, flags: ControlFlags::new(true, true), time_to_live: 9, protocol: 17, checksum: 0, source: Ipv4Address::from({src}u32), destination: Ipv4Address::from({dst}u32) }};')
+    L.append('    let mut control = Control::new(); control.insert(iph);')
+    L.append('    GOT.lock().unwrap().clear();')
+    L.append('    let r = crate::Protocol::demux(&*udp, Message::new(bytes), Arc::new(Dummy), control, machine.clone());')
+    L.append(f'    let exact = bound.iter().find(|b| b.0 == {dst}u32 && b.1 == {dport}u16).map(|b| b.2); let wild = bound.iter().find(|b| b.0 == 0 && b.1 == {dport}u16).map(|b| b.2);')
+    L.append('    let want = exact.or(wild); let got = GOT.lock().unwrap().clone();')
+    L.append('    match want { None => { if !got.is_empty() || r.is_ok() { bad.push(format!("nobody bound but delivered {:?} / result ok={}", got, r.is_ok())); } }')
+    L.append('                 Some(w) => { if got.len() != 1 || got[0].0 != w || got[0].1 != payload { bad.push(format!("expected delivery of {:?} to app {}, got {:?}", payload, w, got)); } } }')
+    L.append('    println!("OP 0 RESULT {}", if bad.is_empty() { "AGREE".to_string() } else { bad.join(" | ") });')
+    L.append('}')
+    out, rc = native.run_tests(UDP_REPLAY + '\n'.join(L), append_to='src/protocols/udp.rs', test_filter='mirx_replay_0')
+    lines = native.op_lines(out)
+    if not lines:
+        if 'panicked' in out:
+            return ('panic' in v['key']), 'native run panicked: ' + out[out.find('panicked'):][:200]
+        return False, 'native replay did not run: ' + out[-600:]
+    return ('AGREE' not in lines[0]), lines[0]
+
+
+def udp_part(ctx):
+    from mirx import udpspec
+    return generic_part(
+        ctx, 'udp-listen-demux', udpspec.units(ctx.tier), udpspec.worker,
+        unit_name=lambda u: f'{u["bindings"]} listen() calls with symbolic (address, port), then one datagram with {u["payload"]} payload bytes',
+        unit_desc='real Udp::listen / Udp::demux / UdpSession::receive / Ipv4::listen / UdpHeader::from_bytes_ipv4 MIR and the real Message; machine, Control, DashMap and upstream applications modelled',
+        replay_fn=udp_native_replay,
+        bounds='0..=3 bindings with symbolic 32-bit address and 16-bit port (the solver decides which coincide and which are 0.0.0.0), datagram with symbolic source/destination address and port and '
+               '0/2 (thorough 0/1/3) symbolic payload bytes',
+        outside='multi-machine delivery, ARP on/off, arrival orders (async Network/Pci path); IPv4-layer binding lookup in Ipv4::demux (needs the Pci/Reassembly environment); limited-broadcast bindings beyond being ordinary addresses here',
+        assumptions=['Machine::protocol / Machine::get return the modelled machine\'s protocols; upstream applications are recording stubs', 'Control modelled as a typed dictionary; DashMap as a finite map by structural key equality',
+                     'tracing events are disabled in the model (Level <= LevelFilter is false)'])
